@@ -136,21 +136,20 @@ Proof.
 Qed.
 
 (* ---------------------------------------------------------------- the element loop *)
-Lemma dec_elems_suffix {A} (p : parser A) md : psuffix p ->
-  forall fuel ln cnt bs xs r, dec_elems p md fuel ln cnt bs = Ok (xs, r) -> sfx bs r.
+Lemma dec_elems_suffix {A} (p : parser A) : psuffix p ->
+  forall fuel ln cnt bs xs r, dec_elems p fuel ln cnt bs = Ok (xs, r) -> sfx bs r.
 Proof.
   intros Hp. induction fuel as [|f IH]; intros ln cnt bs xs r H; cbn [dec_elems] in H; [discriminate|].
   destruct (match ln with Arg n => cnt <? n | Indef => true end).
   - apply bind_ok in H as [t [Ht H]]. destruct (t =? 7).
-    + apply bind_ok in H as [[s r1] [H1 H]]. destruct (is_break s).
-      * injection H as <- <-. apply ssfx_sfx. apply rd_special_suffix in H1. exact H1.
-      * destruct md; discriminate.
+    + apply bind_ok in H as [[s r1] [H1 H]]. destruct (is_break s); [|discriminate].
+      destruct ln; [discriminate|]. injection H as <- <-. apply ssfx_sfx. apply rd_special_suffix in H1. exact H1.
     + apply bind_ok in H as [[x r1] [H1 H]]. apply bind_ok in H as [[xs' r2] [H2 H]]. injection H as <- <-.
       apply Hp in H1. apply IH in H2. eapply sfx_trans; [apply ssfx_sfx, H1|exact H2].
   - injection H as <- <-. apply sfx_refl.
 Qed.
 
-Lemma dec_set_suffix {A} (p : parser A) md dbl : psuffix p -> psuffix (dec_set p md dbl).
+Lemma dec_set_suffix {A} (p : parser A) dbl : psuffix p -> psuffix (dec_set p dbl).
 Proof.
   intros Hp bs [[t d] xs] r H. unfold dec_set in H.
   apply bind_ok in H as [[t0 r0] [H0 H]]. apply bind_ok in H as [[t1 r0'] [H0' H]].
@@ -158,7 +157,7 @@ Proof.
   apply skip_set_tag_suffix in H0.
   assert (S1 : sfx r0 r0').
   { destruct dbl; [apply skip_set_tag_suffix in H0'; exact H0'|injection H0' as <- <-; apply sfx_refl]. }
-  apply rd_head_suffix in H1. apply (dec_elems_suffix _ _ Hp) in H2.
+  apply rd_head_suffix in H1. apply (dec_elems_suffix _ Hp) in H2.
   change (ssfx bs r2).
   eapply sfx_ssfx_trans; [exact H0|]. eapply sfx_ssfx_trans; [exact S1|].
   eapply ssfx_sfx_trans; [exact H1|exact H2].
@@ -202,18 +201,18 @@ Proof.
     match goal with |- match split_at ?k ?t with _ => _ end <> _ => destruct (split_at k t) as [[? ?]|]; discriminate end.
 Qed.
 
-Lemma dec_elems_no_oof {A} (p : parser A) md : psuffix p -> (forall bs, p bs <> OutOfFuel) ->
-  forall fuel ln cnt bs, (length bs < fuel)%nat -> dec_elems p md fuel ln cnt bs <> OutOfFuel.
+Lemma dec_elems_no_oof {A} (p : parser A) : psuffix p -> (forall bs, p bs <> OutOfFuel) ->
+  forall fuel ln cnt bs, (length bs < fuel)%nat -> dec_elems p fuel ln cnt bs <> OutOfFuel.
 Proof.
   intros Hp Hn. induction fuel as [|f IH]; intros ln cnt bs Hl; [lia|]. cbn [dec_elems].
   destruct (match ln with Arg n => cnt <? n | Indef => true end); [|discriminate].
   destruct (cbor_type bs) as [t| | |] eqn:Et; cbn [bind]; try discriminate; [|apply cbor_type_no_oof in Et; contradiction].
   destruct (t =? 7).
   - destruct (rd_special bs) as [[s r]| | |] eqn:Es; cbn [bind]; try discriminate.
-    + destruct (is_break s); [discriminate|destruct md; discriminate].
+    + destruct (is_break s); [destruct ln; discriminate|discriminate].
     + apply rd_special_no_oof in Es. contradiction.
   - destruct (p bs) as [[x r]| | |] eqn:Ep; cbn [bind]; try discriminate; [|apply Hn in Ep; contradiction].
     pose proof (ssfx_length _ _ (Hp _ _ _ Ep)) as Hlen.
     specialize (IH ln (cnt + 1) r ltac:(lia)).
-    destruct (dec_elems p md f ln (cnt + 1) r) as [[xs r']| | |]; cbn [bind]; try discriminate. congruence.
+    destruct (dec_elems p f ln (cnt + 1) r) as [[xs r']| | |]; cbn [bind]; try discriminate. congruence.
 Qed.
